@@ -28,11 +28,12 @@ SPECS = {
         "NotSupportedError. distinct = distinct (verb sequence, operator multiset, data-shape class); non-trivial = >= 2 verbs or >= 1 operator",
     ),
     "C02": dict(
-        fams=[("rowverbs", 1)],
+        fams=[("rowverbs", 8), ("collide", 1)],
         owns=("value:", "exc:", "accept:", "excls:"),
         quick=1200,
         thorough=4000,
-        rule="row-level verbs only (select/drop/rename/mutate/filter/arrange/slice_head/group_by/ungroup/alias) with element-wise "
+        rule="(one program in nine: a column overwritten several times whose older versions are used through kept references behind a SQL subquery) "
+        "row-level verbs only (select/drop/rename/mutate/filter/arrange/slice_head/group_by/ungroup/alias) with element-wise "
         "expressions, overwrites, hidden columns, references through old table handles; every intermediate table is exported and compared "
         "with REF's row-by-row evaluation on Polars (sequence) and SQLite",
     ),
